@@ -67,6 +67,15 @@ pub fn documents(tier: Tier) -> Vec<A> {
     out.push(A::doc(vec![A::el(X, "a").decl("p", X).decl("q", X).attr(X, "k", "1").child(A::el(X, "b").attr("", "l", "x"))]));
     // synonymous prefixes inherited by a child that uses one of them for an attribute
     out.push(A::doc(vec![A::el("", "a").decl("p", X).decl("q", X).child(A::el(X, "b").attr(X, "k", "1").child(A::el("", "c").attr(X, "m", "2")))]));
+    // 3b. the same local name as element and as unprefixed attribute under a default namespace; a prefix
+    //     rebound on one child and used again (with the outer meaning) by the next sibling; PIs under a default
+    //     namespace; characters whose ISO-8859-1 bytes happen to be well-formed UTF-8
+    out.push(A::doc(vec![A::el(X, "a").decl("", X).attr("", "b", "1").child(A::el(X, "b").attr("", "b", "2").attr("", "a", "3")).child(A::el(X, "a"))]));
+    out.push(A::doc(vec![A::el("", "r").decl("p", X).child(A::el("", "m").decl("p", Y).attr(Y, "x", "1")).child(A::el("", "n").attr(X, "x", "2")).child(A::el(X, "m"))]));
+    out.push(A::doc(vec![A::el("", "r").child(A::el(X, "a").decl("p", X).child(A::el(X, "x"))).child(A::el("", "y").child(A::el(Y, "a").decl("p", Y)))]));
+    out.push(A::doc(vec![A::el(X, "a").decl("", X).child(A::pi("pi", Some("d"))).child(A::el(X, "pi")).child(A::pi("a", None))]));
+    out.push(A::doc(vec![A::el("", "a").attr("", "k", "\u{c3}\u{a9}").child(A::text("\u{c3}\u{a9}\u{c2}\u{a0}x"))]));
+    out.push(A::doc(vec![A::el("", "a").attr(XML_NS, "id", "i").child(A::el("", "b").attr(XML_NS, "id", "j")).child(A::el("", "c").attr(XML_NS, "id", "k l"))]));
     // 4. xml:id and xml:space
     out.push(A::doc(vec![A::el("", "a").attr(XML_NS, "id", "i").child(A::el("", "b").attr(XML_NS, "id", "j k").attr(XML_NS, "space", "preserve"))]));
     out.push(A::doc(vec![A::el("", "a").attr("", "id", " x  y ").attr(XML_NS, "id", "a b")]));
